@@ -40,6 +40,7 @@ LIB_AXIOMS = {
     'dict': 'dict semantics for membership, item get/set/del, truthiness; iteration visits every item once (order not modelled)',
     'next': 'next(<genexp over dict items>, default) returns the element for some item satisfying the conditions, or default if none does',
     'list.append': 'list.append adds at the end',
+    'open': 'open()/aiofiles.open() used as a context manager yields a file object or raises OSError; the file is closed on exit',
     'os': 'os.fstat/os.listdir/os.path.isdir/os.getlogin/socket.gethostname return unconstrained values (or raise OSError)',
 }
 
@@ -1186,7 +1187,7 @@ def _isinstance(w, v, n):
     if n == 'int':
         return isinstance(v, (VInt, VBool))
     if n == 'lib:BytesIO':
-        return isinstance(v, VObj) and v.cls == 'BytesIO'
+        return (isinstance(v, VObj) and v.cls == 'BytesIO') or (isinstance(v, VOpaque) and v.tag == 'Mem')
     if isinstance(v, VNone):
         return False
     if isinstance(v, VObj):
@@ -1352,6 +1353,72 @@ def bi_fstat(w, ex, args, kwargs, node):
     return VObj('StatResult', {'st_size': VInt(size)})
 
 
+def bi_open(w, ex, args, kwargs, node):
+    """open(path, mode) / aiofiles.open(path, mode) as a context manager: may raise OSError; creates/opens one local file."""
+    w.use('open')
+    mode = args[1].concrete() if len(args) > 1 and isinstance(args[1], VStr) else 'r'
+
+    def enter():
+        if ex.choose('open-raises'):
+            raise RaiseSig(VExc('OSError'))
+        G = ex.G
+        G.fields['files_opened'] = VInt(G.fields['files_opened'].term + 1)
+        return VOpaque('FileW' if 'w' in mode else 'FileR', z3.Int(ex.fresh_name('file')))
+    return VCtx(enter, lambda exc: None)
+
+
+LD_len = z3.Function('listdir_len', Bytes, IntS)
+LD_at = z3.Function('listdir_at', Bytes, IntS, Bytes)
+PATHJOIN = z3.Function('pathjoin', Bytes, Bytes, Bytes)
+ISDIR = z3.Function('isdir', Bytes, BoolS)
+
+
+def bi_isdir(w, ex, args, kwargs, node):
+    w.use('os')
+    p = args[0]
+    if not isinstance(p, VStr):
+        raise RaiseSig(VExc('TypeError'))
+    return VBool(ISDIR(p.term))
+
+
+def bi_listdir(w, ex, args, kwargs, node):
+    w.use('os')
+    p = args[0]
+    if not isinstance(p, VStr):
+        raise RaiseSig(VExc('TypeError'))
+    if ex.choose('listdir-raises'):
+        raise RaiseSig(VExc('OSError'))
+    n = LD_len(p.term)
+    ex.assume(n >= 0)
+    return VSeq(n, lambda i, t=p.term: VStr(LD_at(t, i)), 'str-derived', None)
+
+
+def bi_pathjoin(w, ex, args, kwargs, node):
+    w.use('os')
+    a, b = args
+    return VStr(PATHJOIN(a.term, b.term))
+
+
+def sp_listdir_at(w, ex, node):
+    p, i = _spec_args(ex, node)
+    return VStr(LD_at(p.term, to_int(i)))
+
+
+def sp_listdir_len(w, ex, node):
+    (p,) = _spec_args(ex, node)
+    return VInt(LD_len(p.term))
+
+
+def sp_pathjoin(w, ex, node):
+    a, b = _spec_args(ex, node)
+    return VStr(PATHJOIN(a.term, b.term))
+
+
+def sp_isdir(w, ex, node):
+    (p,) = _spec_args(ex, node)
+    return VBool(ISDIR(p.term))
+
+
 def bi_namedtuple(w, ex, args, kwargs, node):
     return VClass('lib:namedtuple')
 
@@ -1364,7 +1431,8 @@ BUILTINS = {
     'len': bi_len, 'min': _minmax(True), 'max': _minmax(False), 'int': bi_int, 'bool': bi_bool, 'bytes': bi_bytes,
     'bytearray': bi_bytearray, 'isinstance': bi_isinstance, 'sum': bi_sum, 'hasattr': bi_hasattr, 'ord': bi_ord, 'str': bi_str,
     'struct.pack': bi_struct_pack, 'struct.unpack': bi_struct_unpack, 'struct.calcsize': bi_struct_calcsize,
-    'time.time': bi_time_time, 'contextmanager': bi_contextmanager, 'socket.gethostname': bi_gethostname, 'os.fstat': bi_fstat, 'namedtuple': bi_namedtuple,
+    'time.time': bi_time_time, 'contextmanager': bi_contextmanager, 'socket.gethostname': bi_gethostname, 'os.fstat': bi_fstat, 'namedtuple': bi_namedtuple, 'open': bi_open,
+    'aiofiles.open': bi_open, 'os.path.isdir': bi_isdir, 'os.listdir': bi_listdir, 'os.path.join': bi_pathjoin,
 }
 
 
@@ -1669,7 +1737,8 @@ SPEC_FUNCS = {
     'D_cmd': sp_D(SF.D_cmd, lambda t: VBytes(t, False)), 'D_a0': sp_D(SF.D_a0, VInt), 'D_a1': sp_D(SF.D_a1, VInt),
     'D_data': sp_D(SF.D_data, lambda t: VBytes(t, False)), 'catD': sp_catD,
     'FS_id': sp_D(SF.FS_id, lambda t: VBytes(t, False)), 'FS_data': sp_D(SF.FS_data, lambda t: VBytes(t, True)), 'FS_w': sp_FS_w, 'catFS': sp_catFS,
-    'asbytearray': sp_asbytearray, 'SB': sp_SB,
+    'asbytearray': sp_asbytearray, 'SB': sp_SB, 'listdir_at': sp_listdir_at, 'listdir_len': sp_listdir_len, 'pathjoin': sp_pathjoin,
+    'isdir': sp_isdir,
 }
 
 SPEC_CONSTS = {
